@@ -22,7 +22,12 @@ def run(ctx):
     s = next((o for o in outs if o.get("summary")), None)
     if not s:
         raise vlib.Infra("sealfault produced no summary: " + err[-500:])
-    bad = [o for o in outs if "what" in o]
+    for o in outs:
+        if o.get("infra"):
+            raise vlib.Infra("sealfault: " + str(o["infra"]))
+        if o.get("fault") == "rename":
+            ctx.violation("seal:renamefault:%s" % str(o["what"])[:60], o, what="a failing rename while sealing: " + str(o["what"]))
+    bad = [o for o in outs if "what" in o and o.get("fault") != "rename"]
     if bad:
         ctx.violation("seal:writefault:swallowed", {"swallowed_writes": s.get("swallowed"), "writes": s.get("writes"), "first": bad[0]},
                       what="%d of %d single-write failures of the index output were swallowed by the sealing writer (a truncated index would be published)" % (len(bad), s.get("writes", 0)))
@@ -41,7 +46,7 @@ def run(ctx):
     ctx.cov["rule"] = ("crash states: every state of Lifecycle.tla (both SkipSortDocs modes, <=2 crashes) in the sealing/release phase, with torn temp files cut at a "
                        "seeded length and a missing/valid/corrupt/truncated .frac-cache, next to an untouched neighbour fraction; each is started twice with "
                        "an ingest in between; write faults: every single Write of the index output of a 70k-document fraction (2 LID blocks, 18 ID blocks) "
-                       "failing once; traces: %d recorded fraction life cycles (own driver + every fraction created by the repository's tests of fracmanager/storeapi, thorough: + integration tests)" % ntr)
+                       "failing once; each rename of a synced temp output failing once (both SkipSortDocs modes), followed by restart and a repeated seal; traces: %d recorded fraction life cycles (own driver + every fraction created by the repository's tests of fracmanager/storeapi, thorough: + integration tests)" % ntr)
     ctx.assumptions += ["file operations are atomic and durable in program order; only temp-file CONTENTS can be torn (final names are fsynced before the rename)",
                         "write faults are injected into the index output only; the sorted-docs output is a real file created inside frac.Seal and is not fault-injected",
-                        "sync/rename failures are not injected"]
+                        "rename failures of both temp outputs are injected (final name occupied by a directory); sync failures are not"]
